@@ -38,6 +38,10 @@ class RepeatUnit(Unit):
             r = rng.randint(1, 12) if rng.random() < 0.3 else rng.randint(1, 4)
             kind = rng.choice(["int", "dyadic", "ratio", "uniform"])
             cases.append({"x": gens.sorted_x(rng, N, kind), "y": gens.values(rng, N), "r": r, "int": kind == "int" and rng.random() < 0.7})
+        for _ in range(12):      # nearly-uniform / decimal abscissae: "looks regular" shortcuts show up here
+            N = rng.randint(3, 8)
+            cases.append({"x": gens.loose_x(rng, N), "y": gens.values(rng, N), "r": rng.randint(1, 4), "int": False})
+        cases.append({"x": [0.0, 1e-9, 3e-9, 7e-9, 8e-9, 11e-9], "y": gens.values(rng, 6), "r": 3, "int": False})
         # composition cases
         for a in range(1, 5):
             for b in range(1, 13 // a):
